@@ -322,7 +322,7 @@ fn x_tok(r: &mut Rng) -> f32 {
 
 /// is the integer token exactly representable in f32? (the lerp laws are stated for such values)
 fn tok_f32_exact(kind: &str, tok: &str) -> bool {
-    if kind == "f32" { return true; }
+    if kind == "f32" || kind == "f64" { return true; }
     let v: i128 = tok.parse().unwrap();
     (v as f32) as i128 == v && ((v as f32) as f64) == v as f64
 }
@@ -508,12 +508,19 @@ fn gen_tl(r: &mut Rng, n: usize, out: &mut dyn Write) {
                 }
             }
             if let Some(sv) = &start {
-                if t <= delay && !tl.kfs.is_empty() {
+                let fixes0 = tl.easing.as_deref() != Some("c2") && tl.kfs.iter().all(|k| k.easing.as_deref() != Some("c2"));
+                if t <= delay && !tl.kfs.is_empty() && fixes0 {
                     // up to the delay every animated+defined field shows exactly the start value
-                    let exp: Vec<String> = anim_idx.iter().enumerate().filter(|(j, _)| defined[*j]).map(|(_, fi)| format!("{}={}", fi, sv[*fi])).collect();
-                    if !exp.is_empty() && !tl.kfs.iter().any(|k| k.pos == 0.0 && tl.kfs.iter().filter(|k2| k2.pos == 0.0).count() > 1) {
+                    let dup0 = |j: usize| tl.kfs.iter().filter(|k| k.pos == 0.0 && k.vals[j].is_some()).count() > 1;
+                    let ok = |j: usize, fi: usize| defined[j] && tok_f32_exact(fields[fi].0, &sv[fi]);
+                    let exp: Vec<String> = anim_idx.iter().enumerate().filter(|(j, fi)| ok(*j, **fi) && !dup0(*j)).map(|(_, fi)| format!("{}={}", fi, sv[*fi])).collect();
+                    let expd: Vec<String> = anim_idx.iter().enumerate().filter(|(j, fi)| ok(*j, **fi) && dup0(*j)).map(|(_, fi)| format!("{}={}", fi, sv[*fi])).collect();
+                    if !exp.is_empty() || !expd.is_empty() {
                         writeln!(out, "upd 0 {} {}", b(t), tgt).unwrap();
-                        writeln!(out, "# expect C10 1 {}", exp.join(" ")).unwrap();
+                        let mut off = 1;
+                        if !exp.is_empty() { writeln!(out, "# expect C10 {} {}", off, exp.join(" ")).unwrap(); off += 1; }
+                        // known finding F-C10: two 0% keyframes defining the same property
+                        if !expd.is_empty() { writeln!(out, "# expectdup0 C10 {} {}", off, expd.join(" ")).unwrap(); }
                     }
                 }
             }
@@ -533,6 +540,7 @@ fn gen_tl(r: &mut Rng, n: usize, out: &mut dyn Write) {
                     let first_pass = k == 0;
                     let exp: Vec<String> = anim_idx.iter().enumerate().filter_map(|(j, fi)| {
                         let v = tl.kfs[kfi].vals[j].clone()?;
+                        if !tok_f32_exact(fields[*fi].0, &v) { return None; }
                         // no other keyframe defines this field at this position
                         if tl.kfs.iter().enumerate().any(|(o, k2)| o != kfi && k2.pos == p && k2.vals[j].is_some()) { return None; }
                         // the start override replaces frame 0 on the first forward pass
@@ -561,6 +569,163 @@ fn gen_tl(r: &mut Rng, n: usize, out: &mut dyn Write) {
     }
 }
 
+/// components with overlapping or disjoint property sets and heterogeneous timing
+fn gen_merged(r: &mut Rng, n: usize, out: &mut dyn Write) {
+    for i in 0..n {
+        writeln!(out, "reset").unwrap();
+        let shape = match r.below(10) { 0..=6 => "S8", 7 | 8 => "Q5", _ => "R4" };
+        writeln!(out, "{}", shape_line(shape)).unwrap();
+        let fields = shape_fields(shape);
+        let nf = fields.len();
+        let anim_idx: Vec<usize> = fields.iter().enumerate().filter(|(_, f)| f.1).map(|(i, _)| i).collect();
+        let ncomp = r.pick(&[0usize, 1, 1, 2, 2, 2, 3, 3, 4]);
+        let exact = i % 2 == 0;
+        let disjoint = r.chance(1, 2);
+        let mut comps: Vec<GenTl> = Vec::new();
+        let mut owner: Vec<usize> = anim_idx.iter().map(|_| r.below(ncomp.max(1) as u64) as usize).collect();
+        if !disjoint { owner.clear(); }
+        for c in 0..ncomp {
+            let mut tl = gen_timeline(r, shape, exact, true);
+            if disjoint {
+                for k in tl.kfs.iter_mut() {
+                    for (j, v) in k.vals.iter_mut().enumerate() {
+                        if owner[j] != c { *v = None; }
+                    }
+                }
+            }
+            if r.chance(1, 3) && c > 0 { tl.dur = comps[0].dur; }
+            writeln!(out, "{}", tl.line(10 + c)).unwrap();
+            comps.push(tl);
+        }
+        let slots: Vec<String> = (0..ncomp).map(|c| (10 + c).to_string()).collect();
+        writeln!(out, "merge 0 {} {} {}", ncomp, slots.join(" "), shape).unwrap();
+        writeln!(out, "meta 0").unwrap();
+        // aggregate timing oracles, computed from the components' own reported metadata
+        for c in 0..ncomp { writeln!(out, "meta {}", 10 + c).unwrap(); }
+        writeln!(out, "# merged-meta C12 {} {}", ncomp + 1, ncomp).unwrap();
+        if ncomp == 1 {
+            // wrapping a single timeline changes nothing
+            writeln!(out, "# eq C12 2 {}", 3).unwrap();
+        }
+        // a reordered merge (disjoint property sets => same results)
+        let mut perm: Vec<usize> = (0..ncomp).collect();
+        r.shuffle(&mut perm);
+        writeln!(out, "merge 1 {} {} {}", ncomp, perm.iter().map(|c| (10 + c).to_string()).collect::<Vec<_>>().join(" "), shape).unwrap();
+        let start: Option<Vec<String>> = if r.chance(1, 2) { Some(vals_line(r, shape, true)) } else { None };
+        if let Some(sv) = &start {
+            writeln!(out, "start 0 {}", sv.join(" ")).unwrap();
+            writeln!(out, "start 1 {}", sv.join(" ")).unwrap();
+            for c in 0..ncomp { writeln!(out, "start {} {}", 10 + c, sv.join(" ")).unwrap(); }
+        }
+        let mut times: Vec<f32> = vec![0.0];
+        for tl in &comps { let mut ts = times_for(r, tl, 1); r.shuffle(&mut ts); times.extend(ts.into_iter().take(10)); }
+        for _ in 0..4 { times.push(r.unit_f32() * 8.0); }
+        for t in times {
+            let target = vals_line(r, shape, true);
+            writeln!(out, "upd 0 {} {}", b(t), target.join(" ")).unwrap();
+            // sequential application of the components, in order, to the same target
+            if ncomp > 0 {
+                writeln!(out, "# seq C12 1 {} {}", ncomp, nf).unwrap();
+                for c in 0..ncomp {
+                    writeln!(out, "updchain {} {}", 10 + c, b(t)).unwrap();
+                }
+                writeln!(out, "# eq C12 1 {}", ncomp + 2).unwrap();
+            } else {
+                writeln!(out, "# expect C12 1 {}", (0..nf).map(|i| format!("{}={}", i, target[i])).collect::<Vec<_>>().join(" ")).unwrap();
+            }
+            if disjoint && ncomp > 1 {
+                writeln!(out, "upd 1 {} {}", b(t), target.join(" ")).unwrap();
+                writeln!(out, "# eq C12 1 {}", 2 + if ncomp > 0 { ncomp + 2 } else { 1 }).unwrap();
+            }
+        }
+    }
+}
+
+/// animator histories over a pool of timeline shapes
+fn gen_anim(r: &mut Rng, n: usize, out: &mut dyn Write) {
+    for i in 0..n {
+        writeln!(out, "reset").unwrap();
+        let shape = match r.below(10) { 0..=7 => "S8", 8 => "Q5", _ => "R4" };
+        writeln!(out, "{}", shape_line(shape)).unwrap();
+        let nstates = 2 + r.below(4) as usize; // 2..5
+        let exact = i % 2 == 0;
+        let mut toks: Vec<String> = Vec::new();
+        let mut tls: Vec<Option<GenTl>> = Vec::new();
+        let mut next_slot = 10;
+        let mut c04_ok = true;
+        let tl_ok = |t: &GenTl| -> bool {
+            t.distinct_positions() && t.easing.as_deref() != Some("c2") && t.kfs.iter().all(|k| k.easing.as_deref() != Some("c2"))
+        };
+        for _ in 0..nstates {
+            match r.below(6) {
+                0 | 1 => { toks.push("-".into()); tls.push(None); }
+                2 => {
+                    // merged of two
+                    let a = gen_timeline(r, shape, exact, true);
+                    let c = gen_timeline(r, shape, exact, true);
+                    writeln!(out, "{}", a.line(next_slot)).unwrap();
+                    writeln!(out, "{}", c.line(next_slot + 1)).unwrap();
+                    writeln!(out, "merge {} 2 {} {} {}", next_slot + 2, next_slot, next_slot + 1, shape).unwrap();
+                    c04_ok = c04_ok && tl_ok(&a) && tl_ok(&c);
+                    toks.push((next_slot + 2).to_string());
+                    tls.push(Some(a));
+                    next_slot += 3;
+                }
+                _ => {
+                    let mut a = gen_timeline(r, shape, exact, true);
+                    // C04 scope: per-property distinct keyframe positions, endpoint-fixing easings
+                    if r.chance(3, 4) {
+                        let mut seen: Vec<f32> = Vec::new();
+                        a.kfs.retain(|k| if seen.contains(&k.pos) { false } else { seen.push(k.pos); true });
+                    }
+                    writeln!(out, "{}", a.line(next_slot)).unwrap();
+                    c04_ok = c04_ok && tl_ok(&a);
+                    toks.push(next_slot.to_string());
+                    tls.push(Some(a));
+                    next_slot += 1;
+                }
+            }
+        }
+        let s0 = r.below(nstates as u64) as usize;
+        let v0 = vals_line(r, shape, true);
+        writeln!(out, "anim 0 {} {} {} {} {}", shape, nstates, s0, v0.join(" "), toks.join(" ")).unwrap();
+        let steps = if r.chance(1, 6) { 60 } else { 4 + r.below(14) as usize };
+        let mut cur = s0;
+        let dts_exact = [0.0f32, 0.25, 0.5, 1.0, 0.125, 2.0, 8.0, 64.0];
+        let dts_any = [0.0f32, 0.016, 0.0166667, 0.1, 0.3, 1.0, 0.001, 7.3, 100.0, 1e-9];
+        for _ in 0..steps {
+            match r.below(10) {
+                0..=5 => {
+                    let dt = if exact { r.pick(&dts_exact) } else if r.chance(1, 4) { r.unit_f32() * 3.0 } else { r.pick(&dts_any) };
+                    writeln!(out, "adv 0 {}", b(dt)).unwrap();
+                    if dt == 0.0 && c04_ok { writeln!(out, "# eqprev C06").unwrap(); }
+                }
+                6 => {
+                    // land exactly on / next to the end instant of the current state's timeline
+                    if let Some(Some(tl)) = tls.get(cur) {
+                        if let Some(c) = tl.cycles() {
+                            let total = tl.delay_v() + tl.dur_v() * c as f32;
+                            if total < 1e6 { writeln!(out, "adv 0 {}", b(total)).unwrap(); }
+                        }
+                    }
+                }
+                7 => {
+                    // same state: nothing at all changes
+                    writeln!(out, "set 0 {}", cur).unwrap();
+                    writeln!(out, "# eqprev C04").unwrap();
+                }
+                _ => {
+                    let s = r.below(nstates as u64) as usize;
+                    writeln!(out, "set 0 {}", s).unwrap();
+                    // no jump: values before == values after (within the C04 hypotheses; checked by the oracle hook)
+                    if c04_ok { writeln!(out, "# eqvprev C04").unwrap(); }
+                    cur = s;
+                }
+            }
+        }
+    }
+}
+
 pub fn generate(suite: &str, seed: u64, n: usize, out: &mut dyn Write) {
     let mut r = Rng(seed ^ suite.bytes().fold(0u64, |h, c| h.wrapping_mul(131).wrapping_add(c as u64)));
     match suite {
@@ -570,6 +735,8 @@ pub fn generate(suite: &str, seed: u64, n: usize, out: &mut dyn Write) {
         "ease" => gen_ease(&mut r, n, out),
         "pos" => gen_pos(&mut r, n, out),
         "tl" => gen_tl(&mut r, n, out),
+        "merged" => gen_merged(&mut r, n, out),
+        "anim" => gen_anim(&mut r, n, out),
         _ => {
             eprintln!("unknown suite {}", suite);
             std::process::exit(2);
